@@ -419,7 +419,7 @@ def check_placeholder(case):
         res.label(klass)
     args = ["--tags=" + t for t in tag_args]
     kwargs = {}
-    use_file = via.startswith("file:")
+    use_file = via.split(":", 1)[0] in ("file", "toml", "interp")
     old_cwd, old_home = os.getcwd(), os.environ.get("HOME")
     scratch = None
     try:
@@ -428,10 +428,23 @@ def check_placeholder(case):
             root = scratch.name
             os.makedirs(os.path.join(root, "home"))
             os.makedirs(os.path.join(root, "work"))
-            key = via.split(":", 1)[1]          # "tags" | "default_tags"
-            lines = ["[behave]", "tag_expression_protocol = v2"]
-            lines.append("%s = %s" % (key, ("\n    ".join(terms))))
-            with open(os.path.join(root, "work", "behave.ini"), "w", encoding="utf-8") as f:
+            kind, key = via.split(":", 1)       # key: "tags" | "default_tags"
+            if kind == "toml":
+                # the same option in pyproject.toml ([tool.behave], list of terms)
+                import json as _json
+                lines = ["[tool.behave]", 'tag_expression_protocol = "v2"',
+                         "%s = [%s]" % (key, ", ".join(_json.dumps(t) for t in terms))]
+                fname = "pyproject.toml"
+            elif kind == "interp":
+                # ini interpolation: the expression is defined once in [DEFAULT] and referred to with %(name)s
+                lines = ["[DEFAULT]", "vf_expr = %s" % tagref.render_v2(cfg_ast, cv).strip(),
+                         "[behave]", "tag_expression_protocol = v2", "%s = %%(vf_expr)s" % key]
+                fname = "behave.ini"
+            else:
+                lines = ["[behave]", "tag_expression_protocol = v2"]
+                lines.append("%s = %s" % (key, ("\n    ".join(terms))))
+                fname = "behave.ini"
+            with open(os.path.join(root, "work", fname), "w", encoding="utf-8") as f:
                 f.write("\n".join(lines) + "\n")
             os.environ["HOME"] = os.path.join(root, "home")
             os.chdir(os.path.join(root, "work"))
@@ -568,7 +581,8 @@ def kw_enum():
             yield case
 
 
-VIAS = ["kw:config_tags", "kw:default_tags", "kw:default_tags-text", "file:tags", "file:default_tags"]
+VIAS = ["kw:config_tags", "kw:default_tags", "kw:default_tags-text", "file:tags", "file:default_tags",
+        "toml:tags", "toml:default_tags", "interp:tags"]
 
 
 def template_st(operands):
